@@ -473,6 +473,7 @@ func (o *Overlay) handleSendTreeMarshal(si *network.ServerIdentity, tm *TreeMars
 	var ro *Roster
 	// other connections create and delete instances concurrently
 	o.instancesLock.Lock()
+	verifAt("overlay.treeMarshalScan", o, tm)
 	for _, inst := range o.instances {
 		if inst.Roster().ID.Equal(tm.RosterID) {
 			ro = inst.Roster()
